@@ -78,6 +78,9 @@ func toNode(g *tstructs.GanttChartSpan, budget *int) *GanttNode {
 
 func genTreeCase(r *vhlib.Rng, n int) TreeCase {
 	alphabet := []string{"a", "b", "c", "ab", "ba", "a0", "b1", "0", "9", "A", "aa", "abc", "z", "zz", "c1", "d", "e", "f", "g", "h"}
+	if r.Chance(6) {
+		alphabet[r.Intn(len(alphabet))] = "" // a span with an empty id (a root with id "" is reported as "no root")
+	}
 	ids := []string{}
 	if n <= len(alphabet) {
 		perm := append([]string{}, alphabet...)
@@ -335,7 +338,7 @@ func coqTreeCase(tc *TreeCase, o treeObs) string {
 }
 
 func streamTree(cfg vhlib.Config, r *vhlib.Rng, sum *vhlib.Summary) {
-	n := 700
+	n := 1000
 	if cfg.Thorough() {
 		n = 12000
 	}
@@ -478,7 +481,7 @@ func closeTo(f float64, q *big.Rat) bool {
 }
 
 func streamQS(cfg vhlib.Config, r *vhlib.Rng, sum *vhlib.Summary) {
-	n := 800
+	n := 1000
 	if cfg.Thorough() {
 		n = 20000
 	}
@@ -492,7 +495,7 @@ func streamQS(cfg vhlib.Config, r *vhlib.Rng, sum *vhlib.Summary) {
 			"Definition pv : list (list N * option N) := " + vhlib.CoqListNL(pvCases) + ".\n" +
 			"Definition pc : list (list N * nat * fl) := " + vhlib.CoqListNL(pcCases) + ".\n"
 		sum.WriteCaseFile(cfg.Out, fmt.Sprintf("cases_c12_qs_%d", shard), "From SigM Require Import Base Trace TraceCheck.\n", defs,
-			"indices_false (map check_qs qs) 0 ++ indices_false (map check_pivot pv) 100000 ++ indices_false (map check_pct pc) 200000 ++ indices_false (map self_qs qs) 300000",
+			"map N.of_nat (indices_false (map check_qs qs) 0) ++ map (fun i => 100000 + N.of_nat i) (indices_false (map check_pivot pv) 0) ++ map (fun i => 200000 + N.of_nat i) (indices_false (map check_pct pc) 0) ++ map (fun i => 300000 + N.of_nat i) (indices_false (map self_qs qs) 0)",
 			len(qsCases)+len(pvCases)+len(pcCases))
 		shard++
 		qsCases, pvCases, pcCases = nil, nil, nil
